@@ -231,12 +231,13 @@ def execute(sc, ctx):
         import kconfgen.core as kg
 
         ctx.counters["probe:sync-through-kconfgen"] += 1
-        alltab = dict(kgen.sym_table(sc["prog2"])) if sc.get("prog2") else {}
-        alltab.update(kgen.sym_table(sc["prog"]))
+        # (an option may have another type in the other version of the tree: the defaults file is written for the step's own)
+        tabs = [kgen.sym_table(sc["prog"])] + ([kgen.sym_table(sc["prog2"])] if sc.get("prog2") else [])
 
     def kconfgen_sync(idx, d):
         st = steps[idx][1]
         dfl = os.path.join(sb, "sdkconfig.defaults.%d" % idx)
+        alltab = tabs[min(st["ver"], len(tabs) - 1)]
         with builtins.open(dfl, "w", encoding="utf-8") as f:
             f.write("".join(kgen.assign_line(nm, alltab[nm]["type"], v) for nm, v in cums[idx] if nm in alltab))
         args = ["--kconfig", kpaths[min(st["ver"], len(kpaths) - 1)], "--defaults", dfl, "--env", "IDF_TARGET=esp32", "--env", "IDF_VERSION=v9.9",
